@@ -113,9 +113,47 @@ def search(ctx, broken, corr_broken):
         import enccorr
         h2, n2 = enccorr.monitor_trips(ctx, prop="C05", fmts=("ebyte", "usb", "yd"))
         h3, n3 = _monitor_priority(ctx)
-        LAST_SEARCH_CANDIDATES += n2 + n3
-        out = (h2 + h3)[:3]
+        h4, n4 = _monitor_one_encoder(ctx)
+        LAST_SEARCH_CANDIDATES += n2 + n3 + n4
+        out = (h2 + h3 + h4)[:3]
     return out
+
+
+def _monitor_one_encoder(ctx):
+    """the identifier written by ONE long-lived encoder (the one a gateway client owns for a whole session): the same PGN, source and
+    priority to changing destinations, and the same destination from changing sources and priorities — every packet's identifier must
+    parse back to the addressing of its own message, whatever the encoder sent before"""
+    from nmea2000.decoder import NMEA2000Decoder
+    from nmea2000.encoder import NMEA2000Encoder
+    from nmea2000.message import NMEA2000Message, NMEA2000Field
+    rnd = random.Random(ctx["seed"] + 10)
+    enc = NMEA2000Encoder()
+    n = 0
+    hist = []
+    for step in range(400):
+        pdu1 = rnd.random() < 0.7
+        if pdu1:
+            m = NMEA2000Message(PGN=59904, id="isoRequest", fields=[NMEA2000Field(id="pgn", value=60928, raw_value=60928)])
+        else:
+            m = NMEA2000Decoder().decode_actisense_string("A000057.055 09FF7 1F112 01A05AFF7FFF7FFD")      # 127250, broadcast
+        m.source, m.priority = rnd.choice([1, 7, 200]), rnd.choice([2, 6])
+        m.destination = rnd.choice([255, 35, 0, 254, 7]) if pdu1 else 255
+        fmt = rnd.choice(["ebyte", "usb", "yd"])
+        hist.append([m.PGN, m.source, m.priority, m.destination, fmt])
+        pk = {"ebyte": enc.encode_ebyte, "usb": enc.encode_usb, "yd": enc.encode_yacht_devices}[fmt](m)[0]
+        n += 1
+        if fmt == "ebyte":
+            i = int.from_bytes(pk[1:5], "big")
+        elif fmt == "usb":
+            i = int.from_bytes(pk[5:9], "little")
+        else:
+            i = int(pk.decode().split()[0], 16)
+        got = tuple(NMEA2000Decoder._extract_header(i))
+        exp = (m.PGN, m.source, m.destination if pdu1 else 255, m.priority)
+        if got != exp:
+            return [{"key": f"C05/one-encoder-history/{m.PGN}", "what": f"message {len(hist)} through one encoder ({fmt}): sent (PGN, source, destination, priority) = {exp}, the identifier {i:08X} parses to {got}",
+                     "replay": {"kind": "one-encoder", "seed": ctx["seed"], "history": hist}}], n
+    return [], n
 
 
 def _monitor_priority(ctx):
@@ -148,6 +186,9 @@ def replay(rp):
     if rp.get("kind") == "message-trip":
         import enccorr
         return enccorr.replay_trip(rp)
+    if rp.get("kind") == "one-encoder":
+        h, n = _monitor_one_encoder({"seed": rp.get("seed", 0)})
+        return not h, (h[0]["what"] if h else "holds now")
     if rp.get("kind") == "priority":
         h, n = _monitor_priority({"seed": rp.get("seed", 0)})
         return not h, (h[0]["what"] if h else "holds now")
